@@ -60,7 +60,11 @@ pub struct Snap {
     pub req_b: u128,
     pub req_s: u128,
     pub history: Vec<Hist>,
+    /// the unbond history decoded from the hub's raw storage
+    pub raw_history: Vec<Hist>,
     pub requests: BTreeMap<String, Vec<(u64, u128, u128)>>,
+    /// the same wait list decoded from the hub's raw storage (all addresses, not only the known ones)
+    pub raw_requests: BTreeMap<String, Vec<(u64, u128, u128)>>,
     pub bsei: TokSnap,
     pub stsei: TokSnap,
     pub hub_bank: u128,
@@ -137,11 +141,15 @@ pub fn known_addresses(w: &World) -> BTreeSet<String> {
     s
 }
 
+/// small pages on purpose: pagination of AllHistory is exercised at every snapshot (C07 compares the paged answer
+/// with the raw storage)
+pub const HISTORY_PAGE: u32 = 8;
+
 pub fn all_history(w: &World, errs: &mut Vec<String>) -> Vec<Hist> {
     let mut out: Vec<Hist> = vec![];
     let mut start: Option<u64> = None;
     loop {
-        match w.q::<h::AllHistoryResponse, _>(HUB, &h::QueryMsg::AllHistory { start_from: start, limit: Some(100) }) {
+        match w.q::<h::AllHistoryResponse, _>(HUB, &h::QueryMsg::AllHistory { start_from: start, limit: Some(HISTORY_PAGE) }) {
             Ok(r) => {
                 let n = r.history.len();
                 for x in r.history {
@@ -157,7 +165,7 @@ pub fn all_history(w: &World, errs: &mut Vec<String>) -> Vec<Hist> {
                         released: x.released,
                     });
                 }
-                if n < 100 {
+                if n < HISTORY_PAGE as usize {
                     break;
                 }
                 start = out.last().map(|x| x.batch_id);
@@ -168,6 +176,77 @@ pub fn all_history(w: &World, errs: &mut Vec<String>) -> Vec<Hist> {
             }
         }
     }
+    out
+}
+
+/// Decode the hub's v2 wait list straight from storage: keys are
+/// len-prefixed("v2_wait") ++ len-prefixed(json(address)) ++ json(batch id), values json {bsei_amount, stsei_amount}.
+pub fn raw_wait_list(w: &World) -> BTreeMap<String, Vec<(u64, u128, u128)>> {
+    let mut out: BTreeMap<String, Vec<(u64, u128, u128)>> = BTreeMap::new();
+    let prefix: &[u8] = &[0, 7, b'v', b'2', b'_', b'w', b'a', b'i', b't'];
+    if let Some(st) = w.stores.get(HUB) {
+        for (k, v) in st.0.iter() {
+            if !k.starts_with(prefix) || k.len() < prefix.len() + 2 {
+                continue;
+            }
+            let rest = &k[prefix.len()..];
+            let l = ((rest[0] as usize) << 8) | rest[1] as usize;
+            if rest.len() < 2 + l {
+                continue;
+            }
+            let addr: String = match serde_json::from_slice(&rest[2..2 + l]) {
+                Ok(a) => a,
+                Err(_) => continue,
+            };
+            let batch: u64 = match std::str::from_utf8(&rest[2 + l..]).ok().and_then(|x| x.parse().ok()) {
+                Some(b) => b,
+                None => continue,
+            };
+            let val: serde_json::Value = match serde_json::from_slice(v) {
+                Ok(x) => x,
+                Err(_) => continue,
+            };
+            let g = |f: &str| val.get(f).and_then(|x| x.as_str()).and_then(|x| x.parse::<u128>().ok()).unwrap_or(0);
+            out.entry(addr).or_default().push((batch, g("bsei_amount"), g("stsei_amount")));
+        }
+    }
+    for v in out.values_mut() {
+        v.sort();
+    }
+    out
+}
+
+/// Decode the hub's unbond history straight from storage: keys are len-prefixed("history_map") ++ big-endian batch id.
+pub fn raw_history(w: &World) -> Vec<Hist> {
+    use std::str::FromStr;
+    let mut out = vec![];
+    let mut prefix: Vec<u8> = vec![0, 11];
+    prefix.extend_from_slice(b"history_map");
+    if let Some(st) = w.stores.get(HUB) {
+        for (k, v) in st.0.iter() {
+            if !k.starts_with(&prefix) || k.len() != prefix.len() + 8 {
+                continue;
+            }
+            let val: serde_json::Value = match serde_json::from_slice(v) {
+                Ok(x) => x,
+                Err(_) => continue,
+            };
+            let n = |f: &str| val.get(f).and_then(|x| x.as_str()).and_then(|x| x.parse::<u128>().ok()).unwrap_or(0);
+            let d = |f: &str| val.get(f).and_then(|x| x.as_str()).and_then(|x| Decimal::from_str(x).ok()).map(at).unwrap_or(0);
+            out.push(Hist {
+                batch_id: val.get("batch_id").and_then(|x| x.as_u64()).unwrap_or(0),
+                time: val.get("time").and_then(|x| x.as_u64()).unwrap_or(0),
+                bsei_amount: n("bsei_amount"),
+                bsei_applied: d("bsei_applied_exchange_rate"),
+                bsei_withdraw: d("bsei_withdraw_rate"),
+                stsei_amount: n("stsei_amount"),
+                stsei_applied: d("stsei_applied_exchange_rate"),
+                stsei_withdraw: d("stsei_withdraw_rate"),
+                released: val.get("released").and_then(|x| x.as_bool()).unwrap_or(false),
+            });
+        }
+    }
+    out.sort_by_key(|h| h.batch_id);
     out
 }
 
@@ -213,6 +292,8 @@ pub fn take(w: &World) -> Snap {
             Err(e) => errs.push(format!("hub UnbondRequests {}: {}", a, e)),
         }
     }
+    let raw_requests = raw_wait_list(w);
+    let raw_history = raw_history(w);
     let bsei = tok_snap(w, BSEI, &known, &mut errs);
     let stsei = tok_snap(w, STSEI, &known, &mut errs);
     let delegations: BTreeMap<String, u128> = w.delegations_of(HUB).into_iter().collect();
@@ -293,7 +374,9 @@ pub fn take(w: &World) -> Snap {
         req_b,
         req_s,
         history,
+        raw_history,
         requests,
+        raw_requests,
         bsei,
         stsei,
         hub_bank: w.bal(HUB, USEI),
